@@ -3,7 +3,8 @@
    Batch/Store.v (store, per-batch database session, handlers); tied to
    kmip/services/server/engine.py by harness/c08.py on every run. *)
 From Coq Require Import ZArith List Bool.
-From PK Require Import Batch.Generic Batch.GenericProofs Batch.Store Batch.StoreProofs Batch.Session Batch.SessionProofs.
+From PK Require Import Batch.Generic Batch.GenericProofs Batch.Store Batch.StoreProofs Batch.Session Batch.SessionProofs Batch.Order Batch.OrderCheck.
+From PKGen Require Import BatchOrder.
 Import ListNotations.
 Open Scope Z_scope.
 
@@ -201,3 +202,17 @@ Example session_partial_hypotheses_satisfiable :
                   [Build_item 1 (Some [1]) (BCreate true false true true true true [] [] None);
                    Build_item 24 None (BReadOnly (1,0))] = (a, st') /\ answer_is_error a = true /\ a <> ATooLarge.
 Proof. eexists. eexists. vm_compute. repeat split. discriminate. Qed.
+
+(* ---- tie T: the same ordering claim on the code itself ----
+   gen/BatchOrder.v is extracted from engine.py on every run (raise / mutation / commit
+   events with the control structure of each of the 21 operation handlers and of the
+   helpers they call).  No explicit `raise` is reachable while a loaded object or the
+   session holds an uncommitted change, except for the residual entries listed in
+   Batch/OrderCheck.v (path-insensitivity of the analysis; discharged dynamically by K);
+   no handler ends with an uncommitted change; the placeholder is only set in a clean state. *)
+Theorem every_raise_precedes_every_mutation_in_the_source :
+  late_raises engine_methods operation_handlers = expected_late_raises /\
+  forallb (fun h => negb (ends_dirty_of engine_methods h)) operation_handlers = true /\
+  List.length operation_handlers = 21%nat.
+Proof. exact (conj handlers_order_ok (conj handlers_end_clean handlers_counted)). Qed.
+Print Assumptions every_raise_precedes_every_mutation_in_the_source.
